@@ -1230,3 +1230,78 @@ func ruleEntryIteratorPaths(r *Run, o *Obligation, fn *ssa.Function, want *types
 		o.OK("on every path through Next and its helpers: SetFromRecord -> prefilter(record.Body) -> pipeline(prefilter line); true only under both keeps with ts=record.Timestamp, line=pipeline line").At(r.pos(fn.Pos()))
 	}
 }
+
+// ruleMatcherLoop: no selector matcher is lost between the query and the places that evaluate it:
+// in extractQueryConditions every iteration over sel.Matchers either hands the matcher to the
+// storage (append to the label parameters), turns it into a prefilter (append to the prefilters)
+// or fails.
+func ruleMatcherLoop(r *Run) {
+	p := r.P
+	fn := p.Func(enginePkg, "extractQueryConditions")
+	o := r.Ob("PV-WHOLE", "logqlengine.extractQueryConditions matcher loop", "every selector matcher is either passed to the storage or evaluated by the engine's prefilter: no iteration over sel.Matchers ends without one of the two (or an error)")
+	if fn == nil || len(fn.Params) != 3 {
+		o.Fail("-", "function not found")
+		return
+	}
+	grp := funcGroup(fn)
+	var loop *rangeLoop
+	lf := fn
+	for _, gf := range grp {
+		for _, l := range rangeIndexLoops(gf) {
+			f, base, ok := loadOfField(l.X)
+			if ok && f == "Matchers" && originValueIn(spillParam(base), grp) == ssa.Value(fn.Params[1]) {
+				loop, lf = l, gf
+			}
+		}
+	}
+	if loop == nil {
+		o.Fail(r.pos(fn.Pos()), "no range loop over sel.Matchers found")
+		return
+	}
+	w := &feWalker{Fn: lf, Inline: inlineHelpers(lf), MaxPath: 5000}
+	bad := false
+	n := 0
+	for _, e := range w.RunFrom(loop.Body, loop.Header) {
+		// only paths that come back to the loop header (or leave the loop normally) matter
+		if isErr, known := endReturnsError(e); known && isErr {
+			continue
+		}
+		n++
+		kept := false
+		for _, c := range e.State.calls {
+			call, ok := c.Call.(*ssa.Call)
+			if !ok || !isAppend(call) {
+				continue
+			}
+			at := call.Block()
+			if c.Top != nil {
+				at = c.Top.Block()
+			}
+			if !loop.Blocks[at] {
+				continue
+			}
+			if sl, ok := call.Type().Underlying().(*types.Slice); ok {
+				switch typeKey(sl.Elem()) {
+				case "LabelMatcher", "Processor":
+					kept = true
+				}
+			}
+		}
+		if !kept {
+			bad = true
+			at := fn.Pos()
+			if len(e.State.trail) > 0 && len(e.State.trail[len(e.State.trail)-1].Instrs) > 0 {
+				at = e.State.trail[len(e.State.trail)-1].Instrs[0].Pos()
+			}
+			o.Fail(r.pos(at), "an iteration over sel.Matchers ends without passing the matcher to the storage or building a prefilter for it: that matcher is evaluated by nobody")
+			break
+		}
+	}
+	if n == 0 {
+		bad = true
+		o.Fail(r.pos(fn.Pos()), "no path through the matcher loop")
+	}
+	if !bad {
+		o.OK("%d path(s) through the loop body, each appends the matcher to the storage parameters or a prefilter", n).At(r.pos(lf.Pos()))
+	}
+}
